@@ -420,7 +420,9 @@ func (c *Client) send(dest net.Addr, msg *dhcpv6.Message) (<-chan *dhcpv6.Messag
 		close(done)
 
 		c.pendingMu.Lock()
-		if p, ok := c.pending[msg.TransactionID]; ok {
+		// Only remove our own registration: the receive loop may already have
+		// dropped it, and another call may have registered the same ID since.
+		if p, ok := c.pending[msg.TransactionID]; ok && p.done == done {
 			close(p.ch)
 			delete(c.pending, msg.TransactionID)
 		}
